@@ -50,6 +50,13 @@ type ownInfo struct {
 	until map[*types.Var]token.Pos // owned variable -> position of the first escaping use
 	ptr   map[*types.Var]bool      // (P) fresh pointer (true) or struct value (false)
 	recv  *types.Var               // the receiver of the method (nil for functions)
+	// (F) container fields of an owned object that hold nothing but containers made in this body
+	// (see computeFreshContainers): their ELEMENTS are private as well
+	lit     map[*types.Var]*ast.CompositeLit // owned variable -> the literal that defines it (nil literal = zero value)
+	zero    map[*types.Var]bool              // defined as zero value (`new(T)`, `var v T`)
+	tainted map[*types.Var]map[string]bool   // owned variable -> field names that may hold a foreign container
+	scanned bool
+	body    *ast.BlockStmt
 }
 
 func isStructValue(t types.Type) bool {
@@ -72,7 +79,68 @@ func freshExprIn(info *types.Info, e ast.Expr) (ptr bool, ok bool) {
 	if c, isCall := e.(*ast.CallExpr); isCall && freshCall != nil && freshCall(info, c) {
 		return true, true
 	}
+	// NewT(...).WithX(...): a builder method (every return hands back its own receiver, which it
+	// does not leak) called on a fresh object
+	if c, isCall := e.(*ast.CallExpr); isCall {
+		if sel, ok := c.Fun.(*ast.SelectorExpr); ok {
+			if s := info.Selections[sel]; s != nil && s.Kind() == types.MethodVal {
+				if fn, ok := s.Obj().(*types.Func); ok {
+					if o := fn.Origin(); o != nil {
+						fn = o
+					}
+					if returnsRecv[fn] && !leaksRecv[fn] {
+						if ptr, fresh := freshExprIn(info, sel.X); fresh && ptr {
+							return true, true
+						}
+					}
+				}
+			}
+		}
+	}
 	return false, false
+}
+
+// returnsRecv: methods with a pointer receiver whose every return statement returns that receiver
+var returnsRecv = map[*types.Func]bool{}
+
+func computeReturnsRecv() {
+	for _, n := range nodes {
+		fd, ok := n.decl.(*ast.FuncDecl)
+		if !ok || fd.Recv == nil || len(fd.Recv.List) == 0 || len(fd.Recv.List[0].Names) == 0 ||
+			fd.Type.Results == nil || len(fd.Type.Results.List) != 1 {
+			continue
+		}
+		info := n.pkg.TypesInfo
+		recv, _ := info.Defs[fd.Recv.List[0].Names[0]].(*types.Var)
+		fn, _ := info.Defs[fd.Name].(*types.Func)
+		if recv == nil || fn == nil {
+			continue
+		}
+		if _, isPtr := recv.Type().(*types.Pointer); !isPtr {
+			continue
+		}
+		okAll, seen := true, false
+		ast.Inspect(n.body, func(x ast.Node) bool {
+			switch r := x.(type) {
+			case *ast.FuncLit:
+				return false
+			case *ast.ReturnStmt:
+				seen = true
+				if len(r.Results) != 1 {
+					okAll = false
+					return true
+				}
+				id, isId := r.Results[0].(*ast.Ident)
+				if !isId || info.Uses[id] != recv {
+					okAll = false
+				}
+			}
+			return true
+		})
+		if okAll && seen {
+			returnsRecv[fn] = true
+		}
+	}
 }
 
 func freshExpr(e ast.Expr) (ptr bool, ok bool) {
@@ -134,7 +202,8 @@ func moduleCall(info *types.Info, c *ast.CallExpr) bool {
 
 func computeOwnership(n *fnode) *ownInfo {
 	info := n.pkg.TypesInfo
-	oi := &ownInfo{until: map[*types.Var]token.Pos{}, ptr: map[*types.Var]bool{}}
+	oi := &ownInfo{until: map[*types.Var]token.Pos{}, ptr: map[*types.Var]bool{},
+		lit: map[*types.Var]*ast.CompositeLit{}, zero: map[*types.Var]bool{}, tainted: map[*types.Var]map[string]bool{}, body: n.body}
 	defPos := map[*types.Var]token.Pos{}
 	declare := func(id *ast.Ident, ptr bool) {
 		if id == nil || id.Name == "_" {
@@ -197,6 +266,15 @@ func computeOwnership(n *fnode) *ownInfo {
 						continue
 					}
 					if len(s.Rhs) == len(s.Lhs) {
+						if v, ok := info.Defs[id].(*types.Var); ok && v != nil {
+							if cl := literalOf(s.Rhs[i]); cl != nil {
+								oi.lit[v] = cl
+							} else if c, isCall := s.Rhs[i].(*ast.CallExpr); isCall {
+								if fid, isId := c.Fun.(*ast.Ident); isId && fid.Name == "new" {
+									oi.zero[v] = true
+								}
+							}
+						}
 						if ptr, fresh := freshExprIn(info, s.Rhs[i]); fresh && ptr {
 							declare(id, true)
 							continue
@@ -227,6 +305,9 @@ func computeOwnership(n *fnode) *ownInfo {
 							declare(nm, false)
 							if len(vs.Values) == 0 {
 								declare(nm, true) // `var v *T`: owned while only fresh objects are assigned to it
+								if v, ok := info.Defs[nm].(*types.Var); ok && v != nil && isStructValue(v.Type()) {
+									oi.zero[v] = true
+								}
 							}
 						}
 					}
@@ -448,8 +529,26 @@ func (oi *ownInfo) receiverRooted(info *types.Info, e ast.Expr) bool {
 
 // receiver-confined methods (see the head comment): fixpoint over the call graph
 func computeRecvConfined() {
+	// a package-level variable nobody writes after start-up is a constant: reading it does not
+	// take the method off its receiver
+	written := map[string]bool{}
+	for _, n := range nodes {
+		if n.dead || (len(n.roles) == 1 && n.roles["init"]) {
+			continue
+		}
+		for _, a := range n.accesses {
+			if a.Write && strings.Contains(a.Field, "."+pkgVarType+".") {
+				written[a.Field] = true
+			}
+		}
+	}
 	for _, n := range nodes {
 		n.recvConfined = n.own != nil && n.own.recv != nil && !n.offRecv
+		for _, v := range n.pkgVars {
+			if written[v] {
+				n.recvConfined = false
+			}
+		}
 	}
 	changed := true
 	for changed {
@@ -563,7 +662,11 @@ func computeOwnedReceiver() {
 				continue
 			}
 			for _, s := range sites[n] {
-				if s.c.isGo || !(s.c.owned || (s.c.onRecv && s.caller.ownedRecv)) {
+				nested := s.c.viaFreshField != "" && s.caller.ownedRecv && fieldOnlyIn(s.c.viaFreshField, s.caller)
+				if nested {
+					nestedOwned[s.caller.id+" -> "+n.id] = s.c.viaFreshField
+				}
+				if s.c.isGo || !(s.c.owned || nested || (s.c.onRecv && s.caller.ownedRecv)) {
 					n.ownedRecv = false
 					changed = true
 					break
@@ -571,6 +674,23 @@ func computeOwnedReceiver() {
 			}
 		}
 	}
+}
+
+var nestedOwned = map[string]string{}
+
+// fieldOnlyIn: every access to the field (anywhere in the analysed packages) is written in m
+func fieldOnlyIn(field string, m *fnode) bool {
+	for _, n := range nodes {
+		if n == m || n.dead {
+			continue
+		}
+		for _, a := range n.accesses {
+			if a.Field == field {
+				return false
+			}
+		}
+	}
+	return true
 }
 
 func receiverLeaks(n *fnode) (direct bool, recvCalls []*types.Func) {
@@ -673,4 +793,225 @@ func computeLeaks() {
 			}
 		}
 	}
+}
+
+func literalOf(e ast.Expr) *ast.CompositeLit {
+	switch x := e.(type) {
+	case *ast.ParenExpr:
+		return literalOf(x.X)
+	case *ast.UnaryExpr:
+		if x.Op == token.AND {
+			return literalOf(x.X)
+		}
+	case *ast.CompositeLit:
+		return x
+	}
+	return nil
+}
+
+// freshContainerExpr: the expression makes a new container (or none): make(...), a composite
+// literal, nil, or append(v.f, ...) onto the very field it is assigned to.
+func freshContainerExpr(info *types.Info, e ast.Expr, v *types.Var, field string) bool {
+	switch x := e.(type) {
+	case *ast.ParenExpr:
+		return freshContainerExpr(info, x.X, v, field)
+	case *ast.CompositeLit:
+		return true
+	case *ast.Ident:
+		return x.Name == "nil" && info.Uses[x] == types.Universe.Lookup("nil")
+	case *ast.CallExpr:
+		id, ok := x.Fun.(*ast.Ident)
+		if !ok {
+			return false
+		}
+		if _, isB := info.Uses[id].(*types.Builtin); !isB {
+			return false
+		}
+		switch id.Name {
+		case "make":
+			return true
+		case "append":
+			if len(x.Args) == 0 {
+				return false
+			}
+			if s, ok := x.Args[0].(*ast.SelectorExpr); ok && s.Sel.Name == field {
+				if b, ok := s.X.(*ast.Ident); ok && info.Uses[b] == v {
+					return true
+				}
+			}
+			return freshContainerExpr(info, x.Args[0], v, field)
+		}
+	}
+	return false
+}
+
+// computeFreshContainers (lazily, once per body): for every owned variable v that is DEFINED by a
+// composite literal / new / var (so its fields start as what the literal says, or zero), field f is
+// tainted when the literal initialises it with anything but a fresh container, when some
+// assignment `v.f = e` has a non-fresh e, or when v.f is mentioned in any way other than as the
+// base of an element access, the argument of len/cap/append/copy/delete/clear, a range operand or
+// an assignment target (it may then have been handed to somebody who keeps it).
+func (oi *ownInfo) scan(info *types.Info) {
+	oi.scanned = true
+	taint := func(v *types.Var, f string) {
+		if oi.tainted[v] == nil {
+			oi.tainted[v] = map[string]bool{}
+		}
+		oi.tainted[v][f] = true
+	}
+	for v, cl := range oi.lit {
+		for _, el := range cl.Elts {
+			kv, ok := el.(*ast.KeyValueExpr)
+			if !ok {
+				taint(v, "*") // positional literal: not looked into
+				continue
+			}
+			if k, ok := kv.Key.(*ast.Ident); ok && !freshContainerExpr(info, kv.Value, v, k.Name) {
+				taint(v, k.Name)
+			}
+		}
+	}
+	var stack []ast.Node
+	ast.Inspect(oi.body, func(x ast.Node) bool {
+		if x == nil {
+			stack = stack[:len(stack)-1]
+			return true
+		}
+		stack = append(stack, x)
+		sel, ok := x.(*ast.SelectorExpr)
+		if !ok {
+			return true
+		}
+		id, ok := sel.X.(*ast.Ident)
+		if !ok {
+			return true
+		}
+		v, ok := info.Uses[id].(*types.Var)
+		if !ok {
+			return true
+		}
+		if _, tracked := oi.until[v]; !tracked {
+			return true
+		}
+		if tv, ok := info.Types[sel]; ok {
+			switch tv.Type.Underlying().(type) {
+			case *types.Map, *types.Slice:
+			default:
+				return true
+			}
+		} else {
+			return true
+		}
+		parent := stack[len(stack)-2]
+		switch p := parent.(type) {
+		case *ast.IndexExpr:
+			if p.X == sel {
+				return true
+			}
+		case *ast.RangeStmt:
+			if p.X == sel {
+				return true
+			}
+		case *ast.CallExpr:
+			if fid, ok := p.Fun.(*ast.Ident); ok {
+				if _, isB := info.Uses[fid].(*types.Builtin); isB {
+					switch fid.Name {
+					case "len", "cap", "delete", "clear":
+						return true
+					case "copy":
+						return true
+					case "append":
+						if len(p.Args) > 0 && p.Args[0] == sel {
+							// fine when the result goes back into v.f (checked at the assignment)
+							if len(stack) >= 3 {
+								if as, ok := stack[len(stack)-3].(*ast.AssignStmt); ok && len(as.Lhs) == 1 {
+									if ls, ok := as.Lhs[0].(*ast.SelectorExpr); ok && ls.Sel.Name == sel.Sel.Name {
+										if b, ok := ls.X.(*ast.Ident); ok && info.Uses[b] == v {
+											return true
+										}
+									}
+								}
+							}
+						}
+					}
+				}
+			}
+		case *ast.AssignStmt:
+			for i, l := range p.Lhs {
+				if l == sel {
+					if len(p.Rhs) != len(p.Lhs) || !freshContainerExpr(info, p.Rhs[i], v, sel.Sel.Name) {
+						taint(v, sel.Sel.Name)
+					}
+					return true
+				}
+			}
+		}
+		taint(v, sel.Sel.Name)
+		return true
+	})
+}
+
+// freshContainer: x = v.f with v the owned root: the container in v.f was made in this body
+func (oi *ownInfo) freshContainer(info *types.Info, root *types.Var, x *ast.SelectorExpr) bool {
+	id, ok := x.X.(*ast.Ident)
+	if !ok || info.Uses[id] != root {
+		return false
+	}
+	if _, isLit := oi.lit[root]; !isLit && !oi.zero[root] {
+		return false // a copy / a constructor's result: its containers may be shared
+	}
+	if !oi.scanned {
+		oi.scan(info)
+	}
+	return !oi.tainted[root]["*"] && !oi.tainted[root][x.Sel.Name]
+}
+
+// receiverFreshFields: `recv.f = <fresh object>` / `recv.f, err = NewT(...)` in a method body, for
+// fields that get nothing else in this body: field id -> position of the (first) assignment.
+// A call recv.f.m() after it is a call on an object this method has just made; it is treated as
+// a call on an owned object when the method's own receiver is an object under construction and
+// nothing outside this method touches the field (computeOwnedReceiver).
+func receiverFreshFields(n *fnode) map[string]token.Pos {
+	out := map[string]token.Pos{}
+	if n.own == nil || n.own.recv == nil {
+		return out
+	}
+	info := n.pkg.TypesInfo
+	bad := map[string]bool{}
+	ast.Inspect(n.body, func(x ast.Node) bool {
+		as, ok := x.(*ast.AssignStmt)
+		if !ok {
+			return true
+		}
+		for i, l := range as.Lhs {
+			sel, ok := l.(*ast.SelectorExpr)
+			if !ok || !n.own.receiverRooted(info, sel.X) {
+				continue
+			}
+			fid, _, ok := fieldID(info, sel)
+			if !ok {
+				continue
+			}
+			var rhs ast.Expr
+			if len(as.Rhs) == len(as.Lhs) {
+				rhs = as.Rhs[i]
+			} else if i == 0 && len(as.Rhs) == 1 {
+				rhs = as.Rhs[0]
+			}
+			if rhs != nil {
+				if ptr, fresh := freshExprIn(info, rhs); fresh && ptr {
+					if _, seen := out[fid]; !seen {
+						out[fid] = as.End()
+					}
+					continue
+				}
+			}
+			bad[fid] = true
+		}
+		return true
+	})
+	for f := range bad {
+		delete(out, f)
+	}
+	return out
 }
